@@ -36,6 +36,7 @@ def check(ctx) -> None:
     r42(ctx)
     r43(ctx)
     r44(ctx)
+    r45(ctx)
 
 
 def _increment_form(s: ast.AST, t: ast.Attribute):
@@ -63,6 +64,10 @@ def r41(ctx) -> None:
     cls = ctx.proj.cls(DICT, 'MailboxData')
     for f, s, t, rel in writers_of(ctx.proj, '_max_uid'):
         who = f.qualname if f else rel
+        if f is not None and f.cls is not None and f.cls is not cls and \
+                txt(t.value) == 'self' and not rel.startswith(
+                    'pymap/backend/dict/'):
+            continue      # another class's own field of the same name
         if f is None or f.cls is not cls:
             R.fail(f, s, f'foreign writer of _max_uid: {who}',
                    f'{who} writes the dict UID counter from outside the '
@@ -416,3 +421,41 @@ def r44(ctx) -> None:
             'destinations',
             'CopyUid does not emit the source UID set before the '
             'destination UID set')
+
+
+def r45(ctx) -> None:
+    R = ctx.rule('R4.5', 'addressed messages are enumerated in ascending '
+                 'UID order', 4)
+    sm = ctx.proj.cls('pymap/selected.py', 'SynchronizedMessages')
+
+    def ordered(e) -> bool:
+        if isinstance(e, ast.Call) and call_name(e) in ('enumerate', 'islice',
+                                                        'iter', 'list',
+                                                        'tuple') and e.args:
+            return ordered(e.args[0])
+        if isinstance(e, ast.Call) and call_name(e) == 'sorted':
+            return True
+        return txt(e) == 'self._sorted'
+    for name in ('get_uids', 'get_all'):
+        f = sm.own_method(name)
+        if f is None:
+            raise AnchorError(f'SynchronizedMessages.{name} vanished')
+        for r in walk_local(f.node):
+            if not isinstance(r, ast.Return) or r.value is None:
+                continue
+            v = r.value
+            if isinstance(v, ast.Call) and call_name(v) == 'sorted':
+                okv = True
+            elif isinstance(v, (ast.ListComp, ast.GeneratorExp)):
+                okv = ordered(v.generators[0].iter)
+            else:
+                okv = False
+            R.check(okv, f, r, f'{name}: `{txt(v)[:50]}…` iterates the '
+                    f'sorted UID list',
+                    f'{name} returns `{txt(v)[:80]}`, whose order is not '
+                    f'the ascending UID order (a set/dict iteration): '
+                    f'copy_messages/move_messages assign destination UIDs '
+                    f'in this order while CopyUid sorts both sides '
+                    f'independently, so COPYUID 101:104 103:106 pairs the '
+                    f'wrong messages (104->103, 101->104, …); FETCH/STORE '
+                    f'responses come out of order')
